@@ -111,4 +111,26 @@ theorem replica_fault_recovers (C : Crypto) (hC : TreeStore.HashWF C) (hT : Tree
   rw [← hd] at r1 r4
   exact ⟨c', j, r1, r2, r4⟩
 
+/-- the same for a proof that carries a block below the replica's length and an upgrade -/
+theorem replica_blockgrow_fault_recovers (C : Crypto) (hC : TreeStore.HashWF C) (hT : TreeStore.TreeWF C) (bs : Array Bytes) (m n : Nat) (c : Core) (d : Disk)
+    (held : Nat → Bool) (h : ReplicaReopen.RP C bs m c d held) (hm0 : 0 < m) (hmn : m < n) (hn : n ≤ bs.size) (us : List (Nat × Nat))
+    (hup : Growth.Up m 0 (RefTree.rootsStack n).reverse us) (sig : Bytes) (hsl : sig.length = 64)
+    (hver : C.verify c.publicKey (Growth.signableAt C bs n c.tree.fork) sig = true) (i : Nat) (hi : i < m) (k : Nat) :
+    let df := (withFault d (c.verifyAndApply C d (BlockGrow.honestBlockGrowth C bs c d i m n us sig)).journal k).disk
+    ∃ c' j, Core.openCore C none df = .ok (c', j) ∧ c'.publicKey = c.publicKey
+      ∧ ((C02.Shows bs m held c' (df.applyAll j) ∧ ReplicaReopen.RP C bs m c' (df.applyAll j) held)
+        ∨ (C02.Shows bs n (fun j => held j || j == i) c' (df.applyAll j)
+            ∧ ReplicaReopen.RP C bs n c' (df.applyAll j) (fun j => held j || j == i))) := by
+  intro df
+  have hd : df = d.applyAll ((c.verifyAndApply C d (BlockGrow.honestBlockGrowth C bs c d i m n us sig)).journal.take k) := by
+    show (withFault d _ k).disk = _
+    unfold withFault
+    split
+    · rfl
+    · rw [List.take_of_length_le (by omega)]
+  obtain ⟨c', j, r1, r2, _, r4⟩ := C02.replica_blockgrow_crash_atomic C hC hT bs m n c d held h hm0 hmn hn us hup sig hsl hver i hi k
+  try simp only [] at r1 r4
+  rw [← hd] at r1 r4
+  exact ⟨c', j, r1, r2, r4⟩
+
 end HC.C10
